@@ -263,5 +263,56 @@ theorem extend_writes8 (x0 x1 x2 x3 x4 x5 x6 x7 : BitVec w) :
   apply Array.ext'
   simp [extend, wr, RAND_SIZE, List.replicate]
 
+/-! ### `from_rng` / `try_from_rng` of the cores: the model states them for the wrappers (`fromRng32` …); this is their core part -/
+
+def coreFromRng32 {ρ : Type} (fill : TryFill ρ) (src : ρ) : Except SrcErr (Core 32) × ρ :=
+  match fill src (RAND_SIZE * 4) with
+  | (.ok bytes, src) => (.ok (init params32 (readU32s bytes RAND_SIZE).toArray 2), src)
+  | (.error e, src) => (.error e, src)
+
+def coreFromRng64 {ρ : Type} (fill : TryFill ρ) (src : ρ) : Except SrcErr (Core 64) × ρ :=
+  match fill src (RAND_SIZE * 8) with
+  | (.ok bytes, src) => (.ok (init params64 (readU64s bytes RAND_SIZE).toArray 2), src)
+  | (.error e, src) => (.error e, src)
+
+theorem fromRng32_eq_core {ρ : Type} (fill : TryFill ρ) (src : ρ) :
+    fromRng32 fill src = (match coreFromRng32 fill src with
+      | (.ok c, s) => (.ok (BlockRng.new blockCore32 c), s)
+      | (.error e, s) => (.error e, s)) := by
+  unfold fromRng32 coreFromRng32
+  split <;> simp_all
+theorem tryFromRng32_eq_core {ρ : Type} (fill : TryFill ρ) (src : ρ) :
+    tryFromRng32 fill src = (match coreFromRng32 fill src with
+      | (.ok c, s) => (.ok (BlockRng.new blockCore32 c), s)
+      | (.error e, s) => (.error e, s)) := by
+  unfold tryFromRng32 coreFromRng32
+  split <;> simp_all
+theorem fromRng64_eq_core {ρ : Type} (fill : TryFill ρ) (src : ρ) :
+    fromRng64 fill src = (match coreFromRng64 fill src with
+      | (.ok c, s) => (.ok (BlockRng64.new blockCore64 c), s)
+      | (.error e, s) => (.error e, s)) := by
+  unfold fromRng64 coreFromRng64
+  split <;> simp_all
+theorem tryFromRng64_eq_core {ρ : Type} (fill : TryFill ρ) (src : ρ) :
+    tryFromRng64 fill src = (match coreFromRng64 fill src with
+      | (.ok c, s) => (.ok (BlockRng64.new blockCore64 c), s)
+      | (.error e, s) => (.error e, s)) := by
+  unfold tryFromRng64 coreFromRng64
+  split <;> simp_all
+
 end Isaac
+
+/-- `for x in a.iter_mut() { *x = w(x.0.to_le()) }` on a little-endian host: every element is stored back unchanged -/
+theorem wr_rd_self {α : Type} [Inhabited α] (a : Array α) (j : Nat) : wr a j (rd a j) = a := by
+  unfold wr rd
+  by_cases h : j < a.size
+  · simp [Array.setIfInBounds, h]
+  · simp [Array.setIfInBounds, h]
+
+theorem foldl_wr_rd_self {α : Type} [Inhabited α] (l : List Nat) (a : Array α) :
+    List.foldl (fun a j => wr a j (rd a j)) a l = a := by
+  induction l generalizing a with
+  | nil => rfl
+  | cons x xs ih => rw [List.foldl_cons, wr_rd_self, ih]
+
 end Rngs
